@@ -202,6 +202,17 @@ def build_harness(name, defines, extra_flags=None, sanitize=True):
     return out, None
 
 
+def crash_excerpt(err, n=1400):
+    """the informative part of a sanitizer / abort report: from the first ERROR / runtime error /
+    assertion / terminate line"""
+    err = err or ""
+    for pat in ("ERROR: AddressSanitizer", "runtime error", "Assertion", "terminate called", "LeakSanitizer", "SUMMARY"):
+        i = err.find(pat)
+        if i >= 0:
+            return err[max(0, i - 60): i + n]
+    return err[-n:]
+
+
 def pmap(fn, items, jobs=None):
     with concurrent.futures.ThreadPoolExecutor(max_workers=jobs or NPROC) as ex:
         return list(ex.map(fn, items))
